@@ -178,7 +178,7 @@ func init() {
 			return s
 		},
 		Run:  c16Run,
-		Rule: "functions of p=0..3 parameters (a, b, c) whose bodies are decision chains (if (p_i == lit) { return V } …; return V) with V in {literal, empty string, p_j, p_j + \"x\"}, a side-effecting statement after every return (must not run), nested-if and let-in-body shapes; every argument tuple over {\"A\", \"B\", outer variable a (=\"B\"), outer variable b (=\"A\")} — the outer variables are named like the parameters, so swapped arguments distinguish binding orders; result used in 12 ways (output tag, if condition incl. falsy results, !, == on either side, + on either side, let then use, argument of a recording Go helper, &&, array element, inside a for body). Plus nested calls f(f(x)), g(f(x), f(y)) re-entrancy, higher-order apply(f, x), functions stored in let / passed through a Go helper / passed as parameters, recursion (countdown, factorial, fibonacci, mutual even/odd). Compared with a reference evaluation of the decision chain. Non-trivial: p >= 1.",
+		Rule: "functions of p=0..3 parameters (a, b, c) whose bodies are decision chains (if (p_i == lit) { return V } …; return V) with V in {literal, empty string, p_j, p_j + \"x\"}, a side-effecting statement after every return (must not run), nested-if and let-in-body shapes; every argument tuple over {\"A\", \"B\", outer variable a (=\"B\"), outer variable b (=\"A\"), a nested call of the same function} — the outer variables are named like the parameters, so swapped arguments distinguish binding orders; result used in 12 ways (output tag, if condition incl. falsy results, !, == on either side, + on either side, let then use, argument of a recording Go helper, &&, array element, inside a for body). Plus nested calls f(f(x)), g(f(x), f(y)) re-entrancy, higher-order apply(f, x), functions stored in let / passed through a Go helper / passed as parameters, recursion (countdown, factorial, fibonacci, mutual even/odd). Compared with a reference evaluation of the decision chain. Non-trivial: p >= 1.",
 		Bound: func(th bool) string {
 			if th {
 				return "p<=3 with chains of <=2 conditions"
@@ -244,12 +244,18 @@ func c16Func(t *engine.T, p int, b c16Body) {
 	def := `<% let f = ` + fsrc + ` %>`
 	var tuples [][]c16Arg
 	var rec func(cur []c16Arg)
+	pool := append([]c16Arg{}, c16ArgPool...)
+	if p >= 1 {
+		// a nested call of the same function as argument (re-entrancy while arguments are being evaluated)
+		lits := []string{"B", "A", "B"}[:p]
+		pool = append(pool, c16Arg{`f("` + strings.Join(lits, `", "`) + `")`, b.eval(lits)})
+	}
 	rec = func(cur []c16Arg) {
 		if len(cur) == p {
 			tuples = append(tuples, append([]c16Arg{}, cur...))
 			return
 		}
-		for _, a := range c16ArgPool {
+		for _, a := range pool {
 			rec(append(cur[:len(cur):len(cur)], a))
 		}
 	}
